@@ -732,6 +732,11 @@ pub fn hook_generate_type(env: crate::intermediate::TaggingEnvironment, implied:
     let mut backend = crate::generator::rasn::Rasn::default();
     match backend.generate_module(vec![tld]) { Ok(m) if m.warnings.is_empty() => Ok(m.generated.unwrap_or_default()), Ok(m) => Err(format!("warnings: {:?}", m.warnings.iter().map(|w| w.to_string()).collect::<Vec<_>>())), Err(e) => Err(format!("{e:?}")) }
 }
+/// accessors for the native replay of the Verus unit GEN_enum_members
+#[cfg(not(kani))]
+pub fn hook_format_enum_members(e: &crate::intermediate::types::Enumerated) -> Result<String, String> { crate::generator::rasn::Rasn::default().format_enum_members(e).map(|t| t.to_string()).map_err(|e| format!("{e:?}")) }
+#[cfg(not(kani))]
+pub fn hook_enum_identifier(name: &str) -> String { crate::generator::rasn::Rasn::default().to_rust_enum_identifier(name).to_string() }
 /// accessors for the native replay of the Verus unit GEN_emission (token text, white-space as proc_macro2 prints it)
 #[cfg(not(kani))]
 pub fn hook_format_tag(tag: Option<&AsnTag>) -> String { crate::generator::rasn::Rasn::default().format_tag(tag).to_string() }
